@@ -84,7 +84,9 @@ func runC03(c *Ctx) {
 		}
 	}
 	if ds == nil {
-		c.Undecided("R3.1", "one automaton slot per definition, all passed to CombineDFA", combine.Pos(), "the slice given to CombineDFA is not a make(...) in Spec.DFA or in the helper that returns it")
+		if decided := checkAppendedAutomata(c, fn, combine, isDefs); !decided {
+			c.Undecided("R3.1", "one automaton slot per definition, all passed to CombineDFA", combine.Pos(), "the slice given to CombineDFA is not a make(...) in Spec.DFA or in the helper that returns it")
+		}
 	} else {
 		okMake := false
 		if call, ok := ds.Len.(*ssa.Call); ok {
@@ -990,4 +992,129 @@ func checkWinnerPaths(c *Ctx, info *types.Info, loop *ast.RangeStmt, candExpr, s
 	default:
 		c.Pass("R3.2", key, loop.Pos(), fmt.Sprintf("%d paths through one iteration, %d (candidates, literals) combinations, each decided alike on every possible path", len(paths), scen))
 	}
+}
+
+// checkAppendedAutomata: the automata are collected with append in the loop over the definitions. The final-state lists that
+// CombineDFA returns are indexed like its arguments and mapped back to s.Definitions by that index, so every iteration must
+// contribute exactly one automaton, or record an error (the construction then fails as a whole). An iteration that contributes
+// nothing shifts every later definition onto its predecessor's terminal.
+func checkAppendedAutomata(c *Ctx, fn *ssa.Function, combine *ssa.Call, isDefs func(ssa.Value) bool) bool {
+	appends := map[*ssa.Call]bool{}
+	var phis []*ssa.Phi
+	seen := map[ssa.Value]bool{}
+	var back func(v ssa.Value)
+	back = func(v ssa.Value) {
+		if v == nil || seen[v] {
+			return
+		}
+		seen[v] = true
+		switch x := v.(type) {
+		case *ssa.Phi:
+			phis = append(phis, x)
+			for _, e := range x.Edges {
+				back(e)
+			}
+		case *ssa.Call:
+			if b, ok := x.Call.Value.(*ssa.Builtin); ok && b.Name() == "append" && len(x.Call.Args) >= 1 {
+				appends[x] = true
+				back(x.Call.Args[0])
+			}
+		case *ssa.Slice:
+			back(x.X)
+		}
+	}
+	back(combine.Call.Args[0])
+	if len(appends) == 0 || len(phis) == 0 {
+		return false
+	}
+	// the loop header: a phi of the chain in a block that tests an index against len(definitions)
+	var header *ssa.BasicBlock
+	for _, ph := range phis {
+		for _, in := range ph.Block().Instrs {
+			if bo, ok := in.(*ssa.BinOp); ok && bo.Op == token.LSS {
+				if lc, ok := bo.Y.(*ssa.Call); ok {
+					if b, ok := lc.Call.Value.(*ssa.Builtin); ok && b.Name() == "len" && isDefs(lc.Call.Args[0]) {
+						header = ph.Block()
+					}
+				}
+			}
+		}
+	}
+	if header == nil {
+		return false
+	}
+	// blocks of the loop: reachable from the header's successors and reaching the header again
+	inLoop := map[*ssa.BasicBlock]bool{}
+	for _, b := range fn.Blocks {
+		if b != header && header.Dominates(b) && reach(b, nil)[header] {
+			inLoop[b] = true
+		}
+	}
+	recordsError := func(b *ssa.BasicBlock) bool {
+		for _, in := range b.Instrs {
+			if call, ok := in.(ssa.CallInstruction); ok {
+				if n := staticCalleeName(call); strings.HasSuffix(n, "/errors.Append") || n == "errors.Join" {
+					return true
+				}
+			}
+		}
+		return false
+	}
+	nApp := func(b *ssa.BasicBlock) int {
+		n := 0
+		for _, in := range b.Instrs {
+			if call, ok := in.(*ssa.Call); ok && appends[call] {
+				n++
+			}
+		}
+		return n
+	}
+	type res struct {
+		none, many int
+		pos        token.Pos
+	}
+	var r res
+	paths := 0
+	var dfs func(b *ssa.BasicBlock, n int, errd bool, on map[*ssa.BasicBlock]bool)
+	dfs = func(b *ssa.BasicBlock, n int, errd bool, on map[*ssa.BasicBlock]bool) {
+		if paths > 4096 {
+			return
+		}
+		if b == header {
+			paths++
+			switch {
+			case n == 0 && !errd:
+				r.none++
+			case n > 1:
+				r.many++
+			}
+			return
+		}
+		if !inLoop[b] || on[b] {
+			return // leaves the loop (break / return) or an inner cycle
+		}
+		on[b] = true
+		n += nApp(b)
+		errd = errd || recordsError(b)
+		if n == 0 && !errd && r.pos == token.NoPos && len(b.Instrs) > 0 {
+			// remember where a contribution-free path ends, for the report
+		}
+		for _, s := range b.Succs {
+			dfs(s, n, errd, on)
+		}
+		delete(on, b)
+	}
+	for _, s := range header.Succs {
+		if inLoop[s] {
+			dfs(s, 0, false, map[*ssa.BasicBlock]bool{})
+		}
+	}
+	if paths == 0 || paths > 4096 {
+		return false
+	}
+	key := "one automaton per definition, in the order of the definitions, all passed to CombineDFA"
+	c.Check("R3.1", key, combine.Pos(), r.none == 0 && r.many == 0,
+		fmt.Sprintf("of %d paths through one iteration of the loop over the definitions, %d append no automaton without recording an error and %d append more than one: the automata no longer line up with s.Definitions, and the final states CombineDFA reports for automaton i are attributed to the wrong definition", paths, r.none, r.many),
+		"a definition that takes the contribution-free path (e.g. a pattern with an empty language such as /\\p{Lt}/) placed before another one")
+	return true
 }
